@@ -115,7 +115,17 @@ def _dropall_under_scan(case, step, code=None):
     return case.get("tag") == "dropall-under-scan"
 
 
+def _public_url_fragment(case, step, code=None):
+    """GCS-8: public URL of a name containing an API path fragment."""
+    if case.get("tag") != "public-roundtrip":
+        return False
+    n = case["prog"][0].get("n", "")
+    import re
+    return bool(re.search(r"(^|/)b/[^/]+/o(/|$)", n)) or "storage/v1/b" in n
+
+
 KNOWN_MATCHERS = {
+    "GCS-8": _public_url_fragment,
     "BT-16": _weird_table_id,
     "BT-17": _dropall_under_scan,
     "BT-12": _deleted_table_before,
